@@ -147,6 +147,23 @@ func init() {
 		var heldOut []string
 		changed := ""
 		prepared := map[string]efivar.Marshallable{} // per variable: the signed update the caller made itself and kept
+		// every successful WriteVar whose value object the caller holds: the variable's name, what the value object
+		// marshals to, and what the store then holds for the variable, read back raw (for the tie with the translated
+		// TestFS.WriteVar: gen.testfs.stored)
+		var writes []string
+		wrote := func(i int, v efivar.Efivar, m efivar.Marshallable, err error) {
+			if err != nil {
+				return
+			}
+			var mb bytes.Buffer
+			m.Marshal(&mb)
+			stored := "unreadable"
+			var pv probeValue
+			if rerr := fs.GetVar(v, &pv); rerr == nil && pv.called {
+				stored = hx(pv.got)
+			}
+			writes = append(writes, fmt.Sprintf("%d:%s:%s:%s", i, hx([]byte(v.Name)), hx(mb.Bytes()), stored))
+		}
 		for i, op := range ops {
 			v := storeVarDesc(op.Var, op.Desc)
 			switch op.K {
@@ -154,8 +171,10 @@ func init() {
 				var err error
 				if db, derr := signature.ReadSignatureDatabase(bytes.NewReader(unhx(op.Value))); isSecureBootVar(op.Var) && derr == nil {
 					err = fs.WriteVar(v, &db)
+					wrote(i, v, &db, err)
 				} else {
 					err = fs.WriteVar(v, rawValue(unhx(op.Value)))
+					wrote(i, v, rawValue(unhx(op.Value)), err)
 				}
 				out = append(out, errCls(err))
 			case "S":
@@ -177,13 +196,17 @@ func init() {
 						_ = sm.Bytes()
 					}
 					prepared[op.Var] = sm
-					out = append(out, errCls(fs.WriteVar(v, sm)))
+					werr := fs.WriteVar(v, sm)
+					wrote(i, v, sm, werr)
+					out = append(out, errCls(werr))
 					break
 				}
 				out = append(out, errCls(fs.WriteSignedUpdate(v, m, key, cert)))
 			case "A":
 				if sm, ok := prepared[op.Var]; ok {
-					out = append(out, errCls(fs.WriteVar(v, sm)))
+					werr := fs.WriteVar(v, sm)
+					wrote(i, v, sm, werr)
+					out = append(out, errCls(werr))
 				} else {
 					out = append(out, "skip")
 				}
@@ -201,7 +224,7 @@ func init() {
 				}
 			}
 		}
-		return "ok", strings.Join(out, "/") + "#held " + strings.Join(heldOut, ",") + "#changed " + changed
+		return "ok", strings.Join(out, "/") + "#held " + strings.Join(heldOut, ",") + "#changed " + changed + "#writes " + strings.Join(writes, ",")
 	}
 }
 
@@ -231,11 +254,14 @@ func c12Eval(c *Ctx, cs Case) {
 	}
 	// the worker's answer: the results of the operations, then the held results (op:value as it was when the read
 	// returned) and the first held value that changed afterwards
-	resOut, heldPart, changedPart := res.Out, "", ""
+	resOut, heldPart, changedPart, writesPart := res.Out, "", "", ""
 	if i := strings.Index(resOut, "#held "); i >= 0 {
 		resOut, heldPart = resOut[:i], resOut[i+len("#held "):]
 		if j := strings.Index(heldPart, "#changed "); j >= 0 {
 			heldPart, changedPart = heldPart[:j], heldPart[j+len("#changed "):]
+			if k := strings.Index(changedPart, "#writes "); k >= 0 {
+				changedPart, writesPart = changedPart[:k], changedPart[k+len("#writes "):]
+			}
 		}
 	}
 	heldAt := map[int]string{}
@@ -337,6 +363,14 @@ func c12Eval(c *Ctx, cs Case) {
 		f := strings.Fields(changedPart)
 		if len(f) == 4 {
 			fail(fmt.Sprintf("the value returned by the read at op %s changed when op %s ran: a read returns the value of the most recent write before it, whatever is read or written afterwards", f[0], f[1]), "now "+f[3], "still "+f[2], "")
+		}
+	}
+	// the store's writes against the TRANSLATED TestFS.WriteVar (Gen.lean, C12g): for the variable's name and the
+	// bytes the value object marshals to, the translated function — with EFIFS.WriteVar replaced by "marshal what you
+	// are handed" — says which bytes reach the variable's file; the real store must hold exactly those
+	for _, w := range strings.Split(writesPart, ",") {
+		if f := strings.Split(w, ":"); len(f) == 4 {
+			c.GenTieGo(cs, fmt.Sprintf("op %s: TestFS.WriteVar(%s, value marshalling to %s) — what the store holds afterwards, read back raw", f[0], string(unhx(f[1])), clip(f[2])), "ok "+f[3], "gen.testfs.stored", f[1], f[2])
 		}
 	}
 	// correspondence with the Lean store model
